@@ -109,6 +109,22 @@ def run(ctx, rep, tier):
             if is_flag_test(n) == "STRICT_DONE_TOKEN_GENERATION":
                 users.add(q)
     allowed = {"CodegenCtx._generate_transition_body", "CodegenCtx._transition_will_directly_jump"}
+    # F-109: a helper that answers "did the transition body advance the input before the actions?" re-states the body's own two definitions; it may read the flag
+    # exactly as long as it IS that re-statement (sibling agreement, checked here)
+    aba = ctx.model.functions.get("CodegenCtx._advances_before_actions")
+    if aba is not None:
+        tbf = ctx.model.func("CodegenCtx._generate_transition_body")
+        def rhs(fn, name):
+            return next((ast.unparse(n.value) for n in ast.walk(fn) if isinstance(n, ast.Assign) and len(n.targets) == 1 and isinstance(n.targets[0], ast.Name) and n.targets[0].id == name), None)
+        ret = next((ast.unparse(n.value) for n in ast.walk(aba) if isinstance(n, ast.Return) and n.value is not None), None)
+        same = rhs(aba, "immediate_done") is not None and rhs(aba, "immediate_done") == rhs(tbf, "immediate_done") and rhs(tbf, "needs_early_advance") is not None and \
+            ret == f"{rhs(tbf, 'needs_early_advance')} and (not immediate_done)" and \
+            ctx.model.has("CodegenCtx._generate_transition_body", "if needs_early_advance and (not from_end) and (not transition.is_fallthrough) and (not immediate_done):\n    ...")
+        rep.check(same, "C10.c", "CodegenCtx._advances_before_actions", "re-states the transition body's early-advance condition (same immediate-done test, same early-return test)",
+                  "the helper that tells an action template whether the input was already advanced no longer agrees with the transition body's own condition: a byte is skipped or consumed twice "
+                  "when an append-character overflows on a transition that also yields")
+        if same:
+            allowed.add("CodegenCtx._advances_before_actions")
     for u in sorted(users):
         rep.check(u in allowed, "C10.c", u, "reads STRICT_DONE_TOKEN_GENERATION",
                   "strict-done flag consulted outside the immediate-done / direct-jump predicates: it may now change more than "
